@@ -4,6 +4,8 @@ def stages(tier):
     return [
         {"name": "unit", "cmd": "unit", "args": ["-prop", "C07"], "check": "Check.Range.check_unit",
          "timeout": 300, "timeout_thorough": 1800},
+        {"name": "e2e", "cmd": "e2e07", "args": [], "check": "Check.Range.check_e2e",
+         "timeout": 300, "timeout_thorough": 1800},
     ]
 
 TRUSTED = [
